@@ -33,7 +33,7 @@ ASSUMPTIONS = [
     "SageMaker / Python backends are not exercised",
     "PBT is run on the scripted-process backend only (the simulator backend writes no checkpoints to warm-start from)",
 ]
-CASE_TIMEOUT = 60
+CASE_TIMEOUT = 40
 STEP_BUDGET_RERUN = None
 
 KINDS = simrun.SCHED_KINDS
@@ -111,6 +111,9 @@ def expand(spec):
             p["delete_checkpoints"] = False  # PBT + checkpoint deletion is C20's subject (warm start from a deleted checkpoint)
         if rng.random() < 0.2 and kind != "dehb":
             p["plan"]["fail"] = {f"{rng.randint(0, 10)}:{rng.choice([0, 0, 1])}": rng.randint(0, 3) for _ in range(rng.randint(1, 3))}
+    if kind == "moasha":
+        # MOASHA's non-dominated sort is cubic in the number of trials recorded at a rung: keep runs small
+        p["stop"]["max_num_trials_started"] = min(p["stop"].get("max_num_trials_started", 25), 25)
     p.update({k: v for k, v in spec.items() if k not in ("seed", "kind", "backend") and not k.startswith("_")})
     return p
 
